@@ -11,6 +11,7 @@ import math
 
 from mc import alpha
 from mc.env import guard
+from mc import pasts
 from tracklib.core.track import Track
 from tracklib.core.obs import Obs
 from tracklib.core.obs_coords import ENUCoords
@@ -38,9 +39,12 @@ EXTRA = [(2.0 ** -16, 0), (2.0 ** -10, 0), (131072, 0)]      # very short legs (
                                                              # tolerance a helper might apply) and a very long one
 TIMES = [0, 1, 3]
 UNIT = [1.0, 5.0, 1.0, 0.5]           # variant 1 crosses the year end, 2 the leap day, 3 uses half seconds
+PASTS = ["copied", "extracted", "sliced", "span", "featured-then-removed", "rebuilt-from-featured-observations",
+         "sum-of-halves-first-half-featured", "sum-of-halves-both-featured"]
 ORDERS = {"abs-first": ["abs", "abs", "speed", "speed"], "speed-first": ["speed", "abs", "abs", "speed"]}
 
 OBLIGATIONS = {
+    "track_with_a_past": "the features were computed on a track that had been copied, extracted, sliced, rebuilt from featured observations or concatenated first",
     "repeated_fix_made_by_copy": "a repeated position whose second fix is Obs.copy() of the first (with its own timestamp)",
     "long_track": "a track of several hundred fixes (257, 258, 300, ...) cycling through the lattice",
     "repeated_timestamp_at_start": "t[0] == t[1]",
@@ -160,6 +164,10 @@ def check_track(variant, pts, times, order, ctx, case=None):
         ctx.oblige("two_fix_track")
     if any(v == 0 for v in expV):
         ctx.oblige("speed_zero_not_nan")
+    past = None
+    if "/past:" in order:
+        order, past = order.split("/past:")
+        ctx.oblige("track_with_a_past")
     copied = order.endswith("/copied-fix")
     if copied:
         order = order[:-len("/copied-fix")]
@@ -172,7 +180,13 @@ def check_track(variant, pts, times, order, ctx, case=None):
         ctx.oblige("speed_before_abscurv")
     ctx.case(n >= 3 or rep_pos or len(set(times)) < n)
 
-    t = mk_track(variant, pts, times, flat_z, copied)
+    if past:
+        st, t = guard(pasts.make, lambda: mk_track(variant, pts, times, flat_z, copied), past)
+        if st != "ok" or t.size() != n:
+            ctx.undef()
+            return
+    else:
+        t = mk_track(variant, pts, times, flat_z, copied)
     before = snap(t)
     seenS, seenV = None, None
     for step, what in enumerate(ORDERS[order]):
@@ -324,6 +338,9 @@ def run_shard(shard, ctx):
                 check_track(v, pts, times, order, ctx)
                 if any(pts[i] == pts[i + 1] for i in range(n - 1)):
                     check_track(v, pts, times, order + "/copied-fix", ctx)
+                if n == 3 and not shard["extended"]:      # the same track after a past in another part of the library
+                    for past in PASTS:
+                        check_track(v, pts, times, order + "/past:" + past, ctx)
                 if shard["extended"]:
                     check_track(v, pts, times, order + "/flat-z", ctx)
         last = pts
